@@ -74,6 +74,15 @@ func (i ImportNames) TypeName(t types.Type) string {
 	case *types.Pointer:
 		return "*" + i.TypeName(typ.Elem())
 	case *types.Basic:
+		if typ.Kind() == types.UnsafePointer {
+			// The one basic type that lives in a package.
+			if pkgName, ok := i["unsafe"]; ok && pkgName == "." {
+				return typ.Name()
+			} else if ok {
+				return pkgName + "." + typ.Name()
+			}
+			return "unsafe." + typ.Name()
+		}
 		return typ.Name()
 	case *types.Named:
 		if typ.Obj().Pkg() == nil {
